@@ -134,11 +134,11 @@ def l92(n, keyed):
     check(rope.sx_len(raw) == 20 + total + (16 if sealed else 4), 'datagram length')
     h2 = PacketHeader.from_bytes(Not(h.isServer), raw)
     check(And(h2.length == h.length, h2.count == h.count, h2.pkt_type == h.pkt_type), 'header survives')
-    if bool(And(keyed, Or(h.pkt_type == PacketType.CLIENT_HELLO, h.pkt_type == PacketType.SERVER_HELLO))):
-        # hello-typed packets are a handshake matter (C01/C02); the codec round trip is claimed for the rest
-        if bool(h.pkt_type == PacketType.CLIENT_HELLO):
-            return
-    pkt2 = Packet.from_bytes(h2, key, raw)
+    rkey = key
+    if keyed and bool(h.pkt_type == PacketType.SERVER_HELLO):
+        # the signed server hello travels in CRC form; its receiver (the connecting client) holds no key yet
+        rkey = None
+    pkt2 = Packet.from_bytes(h2, rkey, raw)
     check(len(pkt2.msgs) == n, 'same number of messages')
     for a, b in zip(msgs, pkt2.msgs):
         check(b.seq == a.seq, 'message seq round-trips')
@@ -165,7 +165,7 @@ def replay_l92(cfg, m):
         raw = pkt.to_bytes(key)
         bad = len(raw) != pkt.total_size(key) or h.count != n or h.length != len(pkt.msg)
         h2 = c.PacketHeader.from_bytes(not h.isServer, raw)
-        pkt2 = c.Packet.from_bytes(h2, key, raw)
+        pkt2 = c.Packet.from_bytes(h2, None if (keyed and h.pkt_type == c.PacketType.SERVER_HELLO) else key, raw)
         bad = bad or len(pkt2.msgs) != n
         for a, b in zip(msgs, pkt2.msgs):
             bad = bad or not (a.seq == b.seq and a.type == b.type and a.payload == b.payload)
